@@ -158,7 +158,7 @@ def cached_run_units(units, jobs, tier, seed):
         keys = sorted(os.listdir(root), key=lambda d: os.path.getmtime(os.path.join(root, d)))
         import shutil
 
-        for d in keys[:-12]:
+        for d in keys[:-4]:
             shutil.rmtree(os.path.join(root, d), ignore_errors=True)
     except Exception:
         pass
